@@ -10,12 +10,16 @@ use verif_harness::*;
 
 // a writer thread held inside its journal critical section (pause point `write.locked`) while a
 // journal rotation is requested on another thread
+/// 0 = hold the racing writer at `write.locked` (inside its critical section), 1 = at `write.unlocked`
+/// (right after it left the critical section: everything it wrote must be in the memtables by then)
+static RACE_POINT: std::sync::atomic::AtomicUsize = std::sync::atomic::AtomicUsize::new(0);
 static RACE_PARKED: std::sync::atomic::AtomicBool = std::sync::atomic::AtomicBool::new(false);
 static RACE_GO: std::sync::atomic::AtomicBool = std::sync::atomic::AtomicBool::new(false);
 thread_local! { static RACE_WRITER: std::cell::Cell<bool> = std::cell::Cell::new(false); }
 fn race_hook(name: &'static str) {
     use std::sync::atomic::Ordering;
-    if name == "write.locked" && RACE_WRITER.with(|w| w.get()) {
+    let want = if RACE_POINT.load(Ordering::Acquire) == 0 { "write.locked" } else { "write.unlocked" };
+    if name == want && RACE_WRITER.with(|w| w.get()) {
         RACE_PARKED.store(true, Ordering::Release);
         while !RACE_GO.load(Ordering::Acquire) { std::thread::sleep(std::time::Duration::from_millis(1)); }
     }
@@ -364,8 +368,11 @@ fn run_case(seed: u64, lean: &mut Lean, hist: &mut BTreeMap<String, u64>, sample
                     let id = live[n].id;
                     let (k, v) = (gen_key(&mut r), gen_val(&mut r));
                     RACE_PARKED.store(false, Ordering::Release); RACE_GO.store(false, Ordering::Release);
-                    let (h, k2, v2) = (live[n].handle.clone(), k.clone(), v.clone());
-                    let wt = std::thread::spawn(move || { RACE_WRITER.with(|w| w.set(true)); h.insert(k2, v2) });
+                    let at_unlocked = r.chance(1, 2);
+                    let as_batch = r.chance(1, 2);
+                    RACE_POINT.store(at_unlocked as usize, Ordering::Release);
+                    let (h, k2, v2, dbw) = (live[n].handle.clone(), k.clone(), v.clone(), dbref!().clone());
+                    let wt = std::thread::spawn(move || { RACE_WRITER.with(|w| w.set(true)); if as_batch { let mut b = dbw.batch(); b.insert(&h, k2, v2); b.commit() } else { h.insert(k2, v2) } });
                     let t0 = std::time::Instant::now();
                     while !RACE_PARKED.load(Ordering::Acquire) && t0.elapsed() < std::time::Duration::from_secs(30) { std::thread::sleep(std::time::Duration::from_millis(1)); }
                     let parked = RACE_PARKED.load(Ordering::Acquire);
@@ -376,14 +383,15 @@ fn run_case(seed: u64, lean: &mut Lean, hist: &mut BTreeMap<String, u64>, sample
                     RACE_GO.store(true, Ordering::Release);
                     let wr = wt.join();
                     let rr = rt.join();
-                    if !parked { fail!("harness", "racing writer did not reach write.locked"); }
-                    if rotated_early { fail!("impl-vs-oracle", "a journal rotation completed while a writer was inside its journal critical section"); }
+                    if !parked { fail!("harness", "racing writer did not reach its pause point"); }
+                    RACE_POINT.store(0, Ordering::Release);
+                    if rotated_early && !at_unlocked { fail!("impl-vs-oracle", "a journal rotation completed while a writer was inside its journal critical section"); }
                     match wr { Ok(Ok(())) => {} o => fail!("impl-vs-oracle", "racing insert failed: {o:?}") }
                     match rr { Ok(Ok(())) => {} o => fail!("impl-vs-oracle", "racing journal rotation failed: {o:?}") }
                     refm.get_mut(n).unwrap().insert(k.clone(), v.clone());
                     lean.ask(&format!("db.write {id}:P:{}:{}", hex(&k), hex(&v)));
                     lean.ask("db.rotatejournal");
-                    trace.push(format!("insert {n} {} [{}B] racing with rotate-journal", hex(&k), v.len()));
+                    trace.push(format!("{} {n} {} [{}B] held at {} while rotate-journal runs", if as_batch { "batch-insert" } else { "insert" }, hex(&k), v.len(), if at_unlocked { "write.unlocked" } else { "write.locked" }));
                     *hist.entry("rotate-journal-racing-a-writer".into()).or_insert(0) += 1;
                 } else {
                 if let Err(e) = fjall::verif::verif_rotate_journal(dbref!()) { fail!("impl-vs-oracle", "journal rotation failed: {e:?}"); }
